@@ -2,7 +2,7 @@
    immediate, C05 sync refreshes, C05 expire-then-read. *)
 From Coq Require Import List ZArith Bool Lia ZifyBool.
 From Model Require Import Orm.
-From Proofs Require Import OrmBase OrmSpec.
+From Proofs Require Import OrmBase OrmSpec OrmLazy OrmInvOC.
 Import ListNotations.
 Open Scope Z_scope.
 
@@ -61,15 +61,20 @@ Proof.
   - eexists. reflexivity.
 Qed.
 
+Arguments cache_expire : simpl never.
+
 Lemma get_inst_upd s o x : (o < length (heap s))%nat -> get_inst (with_heap s (set_nth o x (heap s))) o = x.
 Proof. intros H. unfold get_inst. cbn. now apply nth_set_nth_same. Qed.
 
 Lemma so_expire_effect s o a b d :
   (o < length (heap s))%nat -> i_vals (get_inst s o) = [Some a; Some b; Some d] -> i_expired (get_inst s o) = false ->
-  exists s1, so_expire cfg o s = (Ret tt, s1) /\ slots s1 = slots s /\ tables s1 = tables s /\ fault s1 = fault s /    log s1 = log s /\ (o < length (heap s1))%nat /    i_k (get_inst s1 o) = i_k (get_inst s o) /\ i_id (get_inst s1 o) = i_id (get_inst s o) /    i_vals (get_inst s1 o) = [None; None; None].
+  exists s1, so_expire cfg o s = (Ret tt, s1) /\ slots s1 = slots s /\ tables s1 = tables s /\ fault s1 = fault s /\
+    log s1 = log s /\ (o < length (heap s1))%nat /\
+    i_k (get_inst s1 o) = i_k (get_inst s o) /\ i_id (get_inst s1 o) = i_id (get_inst s o) /\
+    i_vals (get_inst s1 o) = [None; None; None].
 Proof.
   intros Hlt Hv Hex. unfold so_expire, bind, gets. cbn. rewrite Hex, Hv. cbn.
-  set (s1 := with_heap s _). 
+  set (s1 := with_heap s _).
   assert (L1 : (o < length (heap s1))%nat) by (subst s1; cbn; now rewrite length_set_nth).
   set (s2 := with_heap s1 _).
   destruct (cache_expire_run (i_k (get_inst s o)) (i_id (get_inst s o)) s2) as (c' & Ec). rewrite Ec.
@@ -80,11 +85,141 @@ Proof.
        subst s1; rewrite get_inst_upd by exact Hlt; reflexivity.
 Qed.
 
+End WithConfig.
+Arguments so_expire : simpl never.
+
 Theorem C05_expire_then_read_proof : C05_expire_then_read_stmt.
 Proof.
-  intros cfg0 s h o c r1 s1 r2 s2 Hh Hlt Hc Hcv (a & b & d & Hv) Hex H1 H2.
+  intros cfg s h o c r1 s1 r2 s2 Hh Hlt Hc Hcv (a & b & d & Hv) Hex H1 H2.
   unfold step in H1. cbn [run_op] in H1.
   unfold bind, handle, gets in H1. cbn in H1. rewrite Hh in H1. cbn in H1.
-Show.
-Abort.
-End WithConfig.
+  destruct (so_expire_effect cfg (with_fault (with_log s []) None) o a b d Hlt Hv Hex)
+    as (s1' & E1 & Esl & Etb & Efl & Elg & Hlt1 & Ek & Eid & Ev).
+  rewrite E1 in H1. cbn in H1. inversion H1; subst r1 s1'. clear H1. split; [reflexivity|].
+  cbn in Esl, Etb, Ek, Eid.
+  unfold step in H2. cbn [run_op] in H2.
+  unfold bind, handle, gets in H2. cbn in H2. rewrite Esl, Hh in H2. cbn in H2.
+  unfold so_read, bind, gets in H2. cbn in H2.
+  change (get_inst (with_fault (with_log s1 []) None) o) with (get_inst s1 o) in H2.
+  change (get_inst (with_fault (with_log s []) None) o) with (get_inst s o) in Ek, Eid.
+  rewrite Ek, Hcv, Ev in H2.
+  assert (Hn : nth c [@None val; None; None] None = None) by (destruct c as [|[|[|[|c]]]]; reflexivity).
+  rewrite Hn in H2. cbn in H2.
+  unfold db_select_one, bind, statement, gets in H2. cbn in H2.
+  unfold tbl in *. cbn [tables with_log with_fault with_heap] in H2. rewrite Etb, Eid in H2.
+  destruct (assoc (i_id (get_inst s o)) (t_rows (tget (i_k (get_inst s o)) (tables s)))) as [row|] eqn:Erow;
+    cbn in H2; inversion H2; subst; reflexivity.
+Qed.
+
+Arguments cache_created : simpl never.
+Arguments fill_defaults : simpl never.
+Arguments as_dict : simpl never.
+Arguments validate_all : simpl never.
+
+Section Create.
+Variable cfg : config.
+
+Definition create_tail (k : kind) (kw : list (nat * val)) (id : Z) : M nat :=
+  o <- new_inst (blank_inst k 0) ;;
+  upd_inst o (fun i => i_with_cv (i_with_id (fold_left (fun i cv => set_val (fst cv) (snd cv) i) kw i) id) (is_lazy k)) ;;;
+  cache_created cfg k id o ;;;
+  r <- db_select_one k id all_cols ;;
+  match r with
+  | None => raise ENotFound
+  | Some r => select_init o r ;;; upd_inst o (fun i => i_with_cv (i_with_dirty (i_with_pending i []) false) true) ;;; ret o
+  end.
+
+Lemma so_create_unfold k kvs :
+  so_create cfg k kvs =
+  match fill_defaults all_cols (as_dict kvs) with
+  | None => raise ETypeError
+  | Some kw => validate_all kw ;;; (id <- db_insert k (sorted_pending kw) ;; create_tail k kw id)
+  end.
+Proof. reflexivity. Qed.
+
+Lemma db_insert_ret k vals s id s1 :
+  db_insert k vals s = (Ret id, s1) ->
+  id = t_next (tbl s k) /\
+  s1 = with_tables (with_log s (SInsert k (sort_cols (map fst vals)) :: log s))
+         (tset k {| t_rows := t_rows (tbl s k) ++ [(id, apply_updates vals [VNull; VNull; VNull])]; t_next := id + 1 |} (tables s)).
+Proof.
+  unfold db_insert, bind, statement, gets. cbn.
+  destruct (fault s) as [n|]; [destruct (Nat.eqb n (length (log s)))|]; cbn; try discriminate.
+  all: change (tbl (with_log s _) k) with (tbl s k);
+    destruct (constraint_error all_cols _ _ _); cbn; try discriminate;
+    intros H; inversion H; subst; split; reflexivity.
+Qed.
+
+Lemma set_nth_last {X} (l : list X) x y : set_nth (length l) x (l ++ [y]) = l ++ [x].
+Proof. induction l as [|z l IH]; cbn; [reflexivity|now rewrite IH]. Qed.
+Lemma nth_last {X} (l : list X) y d : nth (length l) (l ++ [y]) d = y.
+Proof. induction l as [|z l IH]; cbn; auto. Qed.
+
+Lemma create_tail_run k kw id s :
+  let o := length (heap s) in
+  exists c' i1,
+    let s3 := with_caches (with_heap s (heap s ++ [i1])) c' in
+    let s4 := with_log s3 (SSelectOne k id all_cols :: log s) in
+    i_id i1 = id /\
+    (i_k i1 = k /\ i_obsolete i1 = false /\ i_pending i1 = [] /\ i_dirty i1 = false /\
+     cache_created cfg k id o (with_heap s (heap s ++ [i1])) = (Ret tt, with_caches (with_heap s (heap s ++ [i1])) c')) /\
+    create_tail k kw id s =
+      if (match fault s with Some n => Nat.eqb n (length (log s)) | None => false end)
+      then (Raise EOperational, s4)
+      else match assoc id (t_rows (tbl s k)) with
+           | None => (Raise ENotFound, s4)
+           | Some r => (Ret o, with_heap s4 (heap s ++ [i_with_cv (i_with_dirty (i_with_pending (i_with_vals i1 (row_vals r)) []) false) true]))
+           end.
+Proof.
+  intros o. unfold create_tail, bind, new_inst, upd_inst, modify. cbn.
+  unfold get_inst. cbn. rewrite !nth_last, !set_nth_last.
+  set (i1 := i_with_cv _ _).
+  set (s1 := with_heap _ _).
+  destruct (oc_cache_created cfg k id o s1) as ([] & c' & Ec). fold o. rewrite Ec.
+  exists c', i1. split; [reflexivity|]. split.
+  { destruct (OrmLazy.fold_set_val_fields kw (blank_inst k 0)) as (Fd & Fp & Fk & _ & _ & Fo & _). cbn zeta in Fd, Fp, Fk, Fo.
+    subst i1. cbn. rewrite Fd, Fp, Fk, Fo. repeat split. exact Ec. }
+  unfold db_select_one, bind, statement, gets. cbn.
+  assert (Et : forall l, tbl (with_log (with_caches s1 c') l) k = tbl s k) by reflexivity.
+  destruct (fault s) as [n|]; [destruct (Nat.eqb n (length (log s)))|]; cbn; try reflexivity.
+  all: rewrite Et; destruct (assoc id (t_rows (tbl s k))) as [r|]; cbn; try reflexivity.
+  all: subst o; unfold get_inst; cbn; rewrite !nth_last, !set_nth_last; cbn; rewrite !nth_last; reflexivity.
+Qed.
+End Create.
+
+Arguments so_create : simpl never.
+Arguments create_tail : simpl never.
+Arguments db_insert : simpl never.
+
+Lemma app_one_neq {X} (l : list X) x : l ++ [x] <> l.
+Proof. intros H. apply (f_equal (@length X)) in H. rewrite app_length in H. cbn in H. lia. Qed.
+
+Theorem C16_insert_immediate_proof : C16_insert_immediate_stmt.
+Proof.
+  intros cfg s kvs id tok s' H. unfold step in H. cbn [run_op] in H.
+  unfold hold_or_none in H. rewrite so_create_unfold in H.
+  set (s0 := with_fault (with_log s []) None) in *.
+  destruct (fill_defaults all_cols (as_dict kvs)) as [kw|]; [|discriminate].
+  unfold bind at 1 in H.
+  destruct (validate_all_run kw s0) as [Ev|Ev]; rewrite Ev in H; [|discriminate].
+  unfold bind at 1 in H.
+  destruct (db_insert Lazy (sorted_pending kw) s0) as [[id1|e] s1] eqn:Ei; [|discriminate].
+  apply db_insert_ret in Ei. destruct Ei as (Eid & Es1).
+  destruct (create_tail_run cfg Lazy kw id1 s1) as (c' & i1 & Ei1 & _ & Et). cbn zeta in Et. rewrite Et in H. clear Et.
+  assert (Ef : fault s1 = None) by (subst s1; reflexivity). rewrite Ef in H.
+  assert (Er : t_rows (tbl s1 Lazy) = t_rows (tbl s Lazy) ++ [(id1, apply_updates (sorted_pending kw) [VNull; VNull; VNull])]).
+  { subst s1. unfold tbl. cbn. reflexivity. }
+  destruct (assoc id1 (t_rows (tbl s1 Lazy))) as [r|] eqn:Ea; [|discriminate].
+  unfold hold, bind, gets, modify in H. cbn in H. inversion H; subst id tok s'. clear H.
+  assert (El : length (heap s1) = length (heap s)) by (subst s1; reflexivity).
+  split; [|split].
+  - cbn. right. subst s1. cbn. left. reflexivity.
+  - change (tbl (with_slots _ _) Lazy) with (tbl s1 Lazy). rewrite Er. apply app_one_neq.
+  - exists r. change (tbl (with_slots _ _) Lazy) with (tbl s1 Lazy).
+    apply assoc_In in Ea. unfold get_inst. cbn. rewrite nth_last. cbn. rewrite Ei1. exact Ea.
+Qed.
+
+Print Assumptions C16_insert_immediate_proof.
+Print Assumptions C16_delete_immediate_proof.
+Print Assumptions C05_sync_refreshes_proof.
+Print Assumptions C05_expire_then_read_proof.
